@@ -2,6 +2,7 @@ package h
 
 import (
 	"bytes"
+	"crypto/tls"
 	"crypto/x509"
 	"encoding/json"
 	"encoding/pem"
@@ -322,6 +323,9 @@ func c04Run(r *core.Run) {
 		// chains to a root of the operating system's trust store, which no
 		// configuration here mentions)
 		var signed []map[string]string // expectations for audit records
+		conns := map[string]*tls.ConnectionState{}
+		var lastTLS, lastPeer string
+		var lastExtra []string
 		for i := 0; i < nreq; i++ {
 			var q c04Req
 			q.Endpoint = core.Pick(t, "endpoint", "sign", "getkey", "list", "home", "sign", "getkey", "health", "directory")
@@ -335,7 +339,13 @@ func c04Run(r *core.Run) {
 				}
 				r.Fault("foreign-certificates-appended-to-chain")
 			}
-			peerTrusted := proxyMode != "none" && t.Chance(1, 3, "via-proxy")
+			sameClient := lastTLS != "" && t.Chance(1, 3, "same-client-again")
+			if sameClient {
+				// the previous caller again, with the same chain (its next request,
+				// typically over the connection it kept open)
+				q.TLS, q.Extra = lastTLS, lastExtra
+			}
+			peerTrusted := proxyMode != "none" && !sameClient && t.Chance(1, 3, "via-proxy")
 			viaProxy := false
 			if peerTrusted {
 				q.Peer = "10.0.0.1:5555"
@@ -369,6 +379,14 @@ func c04Run(r *core.Run) {
 					q.SCC = core.Pick(t, "spoof-scc", "client-fp-1", "client-fp-2", "ca-1-client-a", "garbage")
 					r.Fault("spoofed-identity-headers")
 				}
+			}
+			if sameClient {
+				// same address, and nothing but its own TLS identity (no forwarding
+				// or spoofing headers this time)
+				q.Peer, q.XFF, q.SCC = lastPeer, nil, ""
+			}
+			if !viaProxy {
+				lastTLS, lastExtra, lastPeer = q.TLS, q.Extra, q.Peer
 			}
 			if policyMode && t.Chance(1, 2, "bearer") {
 				q.Bearer = core.Pick(t, "bearer-token", "tok-alice", "tok-bob", "tok-expired", "tok-unknown")
@@ -421,6 +439,20 @@ func c04Run(r *core.Run) {
 				rs.TLS = pki[q.TLS]
 				for _, x := range q.Extra {
 					rs.TLSExtra = append(rs.TLSExtra, pki[x])
+				}
+				// a client that keeps its connection open sends its requests over
+				// one TLS session: they all see the same connection state
+				ck := q.Peer + "|" + q.TLS + "|" + strings.Join(q.Extra, ",")
+				if st := conns[ck]; st != nil && t.Chance(2, 3, "keep-alive") {
+					rs.Conn = st
+					r.Probe("request-on-kept-alive-connection")
+				} else {
+					st := &tls.ConnectionState{HandshakeComplete: true, PeerCertificates: []*x509.Certificate{rs.TLS.Cert}}
+					for _, x := range rs.TLSExtra {
+						st.PeerCertificates = append(st.PeerCertificates, x.Cert)
+					}
+					conns[ck] = st
+					rs.Conn = st
 				}
 			}
 			for _, x := range q.XFF {
